@@ -120,15 +120,19 @@ TEXT = {
         "technique": "Lean 4 proof (lane-level refinement of the word array, invariant by induction over write histories) + differential correspondence over write histories",
     },
     "C16": {
-        "level_text": "Proved by kernel decision over all 256 byte values, against the tables regenerated from lib.rs on every run: base_to_bits maps "
-                      "ACGT in either case to 0..3 and everything else to 0; is_valid_base / dna_only_base_to_bits are exact; rendering back gives the "
-                      "upper-cased letter or 'A'; the scalar path is extend over the bytewise conversion and the str constructor agrees with it on "
-                      "code points < 256. The equality of the vector path with the scalar one is not yet a theorem: the AVX2 kernels are "
-                      "modelled intrinsic by intrinsic (tables/immediates extracted from bitops_avx2.rs) and compared with the hardware on "
-                      "arbitrary bytes, and both paths of from_acgt_bytes are compared with the model and with the bytewise reference.",
+        "level_text": "Proved: (tables, kernel decision over all 256 byte values against lib.rs as regenerated on every run) base_to_bits, "
+                      "is_valid_base, dna_only_base_to_bits, rendering back; (vector kernels, each intrinsic transcribed from Intel's pseudo-code, "
+                      "tables/immediates regenerated from bitops_avx2.rs) convert_bases computes the scalar table on every lane for every byte "
+                      "value and its flag is 'all ACGT' (8192-case kernel decision lifted through the 16-bit shift lemma), pack_32_bases places "
+                      "the low two bits of byte i at bits 63-2i,62-2i (index maps of shuffle/permute/unpack decided, movemask summed); hence for "
+                      "EVERY byte string the vector path (whole chunks pushed as blocks, tail through extend, len set at the end) and the scalar "
+                      "path return the same (storage, len), a well-formed string of the bytewise conversion that renders back to the upper-cased "
+                      "input with non-ACGT replaced by A; the str constructor agrees on code points < 256; the strict constructor returns exactly "
+                      "the maximal ACGT runs; the hashed-N constructor, for any hasher, leaves ACGT untouched and substitutes h(pos) % 4. Both "
+                      "paths and the raw kernels are compared with the hardware on arbitrary bytes on every run.",
         "design_ref": "DESIGN.md section 6, C16",
-        "level_note": COMMON_NOTE + "Partial: lane-wise kernel theorems missing. Intrinsic semantics are transcribed (trusted, validated by execution).",
-        "technique": "Lean 4 proof (exhaustive kernel decision over byte tables) + differential correspondence incl. raw SIMD kernels",
+        "level_note": COMMON_NOTE + "Intrinsic semantics are transcribed (trusted, validated by execution against the hardware); DefaultHasher is a parameter.",
+        "technique": "Lean 4 proof (exhaustive kernel decision over byte x lane tables, lane-wise refinement of the SIMD kernels, refinement of both constructor paths to the bytewise conversion) + differential correspondence incl. raw SIMD kernels",
     },
     "C01": {
         "level_text": "Theorem C01_partition, for every well-formed table with reciprocal extensions and symmetric join, no bound on size, K>=1, both "
